@@ -24,7 +24,7 @@ ASSUMPTIONS = ["netCDF behaviour is that of the vendored stand-in (vp/standins/n
 
 def shards(tier, seed, scale=1.0):
     out = []
-    for blk, q, t, n in (("read", 420, 8000, 7), ("write", 240, 5000, 4), ("unlimited", 120, 2000, 2), ("multi", 160, 3000, 3)):
+    for blk, q, t, n in (("read", 560, 8000, 7), ("write", 400, 5000, 4), ("unlimited", 120, 2000, 2), ("multi", 330, 3000, 3)):
         o = common.rand_shards(ID, tier, seed, scale, q, t, nshards=n)
         for d in o:
             d["block"] = blk
